@@ -154,6 +154,69 @@ def nested_fn_program(r, k):
     return scriptgen.flatten_blocks(prog)
 
 
+# ------------------------------------------------------------------ the proved fragment as Coq terms (Proofs/C01.v sstmt)
+def core_program(r, depth=0, in_loop=False, counter=[0]):
+    """a tree over assign / expr / return / break / if-elif-else / while only (no for, no functions, no continue)"""
+    g = scriptgen.Gen(r, [], 3)
+    out = []
+    for _ in range(r.randint(1, 3)):
+        c = r.random()
+        if depth >= 3 or c < 0.35:
+            c2 = r.random()
+            if c2 < 0.4:
+                out.append(['assign', r.choice(scriptgen.VARS), g.expr(2)])
+            elif c2 < 0.75:
+                counter[0] += 1
+                out.append(['expr', f"systemLog('K{counter[0]} ' + {g.expr(1)})"])
+            elif c2 < 0.85 and in_loop:
+                out.append(['if', [[g.expr(1), [['break']]]], None])
+            elif c2 < 0.92:
+                out.append(['return', g.expr(1) if r.random() < 0.8 else None])
+            else:
+                out.append(['expr', f'({g.expr(2)})'])
+        elif c < 0.7:
+            nb = r.choice([1, 1, 2, 3])
+            branches = [[g.expr(2), core_program(r, depth + 1, in_loop, counter)] for _ in range(nb)]
+            els = core_program(r, depth + 1, in_loop, counter) if r.random() < 0.5 else None
+            out.append(['if', branches, els])
+        else:
+            counter[0] += 1
+            cv = f'w{counter[0]}'
+            out.append(['assign', cv, '0'])
+            out.append(['while', f'{cv} < {r.randint(0, 3)}' + (f' && {g.expr(1)}' if r.random() < 0.3 else ''),
+                        [['assign', cv, f'{cv} + 1']] + core_program(r, depth + 1, True, counter)])
+    return out
+
+
+def sstmt_coq(stmts, canon):
+    """a statement list of the fragment as a Coq term of type sstmt (sequences right-nested)"""
+    def one(s):
+        k = s[0]
+        if k == 'assign':
+            return f'(TAssign {core.cstr(s[1])} {scriptgen.expr_coq(canon[s[2]])})'
+        if k == 'expr':
+            return f'(TExpr {scriptgen.expr_coq(canon[s[1]])})'
+        if k == 'return':
+            return f'(TReturn {core.copt(scriptgen.expr_coq(canon[s[1]]) if s[1] is not None else None)})'
+        if k == 'break':
+            return 'TBreak'
+        if k == 'if':
+            def chain(branches, els):
+                (c, b), rest = branches[0], branches[1:]
+                tail = chain(rest, els) if rest else (f'(TElse {sstmt_coq(els, canon)})' if els is not None else 'TSkip')
+                return f'(TIf {scriptgen.expr_coq(canon[c])} {sstmt_coq(b, canon)} {tail})'
+            return chain(s[1], s[2])
+        if k == 'while':
+            return f'(TWhile {scriptgen.expr_coq(canon[s[1]])} {sstmt_coq(s[2], canon)})'
+        raise ValueError(k)
+    if not stmts:
+        return 'TSkip'
+    res = one(stmts[-1])
+    for s in reversed(stmts[:-1]):
+        res = f'(TSeq {one(s)} {res})'
+    return res
+
+
 def value_pool(r):
     p = interp.Pool()
     return [['null'], ['bool', True], ['bool', False], interp.vflt(0.0), interp.vflt(1.0), interp.vflt(2.0), interp.vint(3), ['str', ''], ['str', 'x'],
@@ -194,8 +257,8 @@ def run(tier):
     chk.assumptions = ['programs do not use the reserved __bareScript prefix, do not bind arrayLength/arrayGet and do not assign a for-index inside its loop',
                        'the final value of a for-index variable after the loop is not pinned by the language description (reference follows the lowering: it is the length)',
                        'call depth bounded (CPython recursion limit out of scope)']
-    proof_ok = chk.prove('Props/C01.v', extra_targets=['Model/Run.vo'])
-    model_ok = proof_ok or chk.model_ready(['Model/Run.vo'])
+    proof_ok = chk.prove('Props/C01.v', extra_targets=['Model/Run.vo', 'Model/RunC01.vo'])
+    model_ok = proof_ok or chk.model_ready(['Model/Run.vo', 'Model/RunC01.vo'])
     r = core.rng('c01')
     vals = value_pool(r)
 
@@ -236,6 +299,9 @@ def run(tier):
     for _ in range(30 if tier == 'quick' else 300):
         progs.append(('while-continue', scriptgen.gen_program(r, max_depth=3, allow_while_continue=True), {'g0': r.choice(vals), 'g1': r.choice(vals), 'g2': r.choice(vals),
                                                                                                        'depth': interp.vflt(0)}))
+
+    for _ in range(80 if tier == 'quick' else 1500):
+        progs.append(('core', core_program(r), {'g0': r.choice(vals), 'g1': r.choice(vals), 'g2': r.choice(vals)}))
 
     texts = [scriptgen.program_text(t) for _, t, _ in progs]
     cases = [{'text': tx, 'globals': g, 'max': 3000, 'want_model': True} for tx, (_, _, g) in zip(texts, progs)]
@@ -285,10 +351,10 @@ def run(tier):
                                              'globals': {k: repr(v)[:60] for k, v in exp['globals'].items()}},
                                 'got': {k: res.get(k) for k in ('res', 'rt', 'log', 'globals')}})
 
-    corr_n = declined = 0
+    corr_n = declined = n_low = n_st = st_declined = 0
     if model_ok:
         idx = [i for i in range(len(progs)) if 'model' in impl[i] and 'host' not in impl[i] and not impl[i].get('rt', '').startswith('Exceeded maximum')]
-        budget = 450 if tier == 'quick' else 4000
+        budget = 250 if tier == 'quick' else 4000
         if len(idx) > budget:
             idx = sorted(r.sample(idx, budget))
         terms, used = [], []
@@ -298,7 +364,41 @@ def run(tier):
                 used.append(i)
             except (interp.Unencodable, ValueError):
                 pass
-        codes, errors = core.coq_codes('c01', interp.IMPORTS, terms, shard=30)
+        # the proved fragment: (a) parse_script (printed text) = compile (tree) in the parser model; (b) the structured interpreter
+        # of Proofs/C01b.v (sound for SExec) run on the tree agrees with the implementation's run of the text
+        core_idx = [i for i, (tag, _, _) in enumerate(progs) if tag == 'core' and 'host' not in impl[i]
+                    and not impl[i].get('rt', '').startswith('Exceeded maximum')]
+        low_terms, st_terms, st_used = [], [], []
+        for i in core_idx:
+            ex = set()
+            exprs_of(progs[i][1], ex)
+            if any(canon.get(e) is None for e in ex):
+                continue
+            term = sstmt_coq(progs[i][1], canon)
+            low_terms.append(f'check_lowering {core.cstr(texts[i])} {term}')
+            try:
+                enc = interp.WorldEnc()
+                world = enc.world(progs[i][2])
+                xg = core.clist([f'({core.cstr(k)}, {interp.tree_coq(v)})' for k, v in impl[i]['globals']])
+                st_terms.append(f'check_struct (Z.to_nat 6000%Z) {term} {world} {interp.expected_coq(impl[i])} '
+                                f'{core.clist([core.cstr(x) for x in impl[i]["log"]])} {xg}')
+                st_used.append(i)
+            except (interp.Unencodable, ValueError):
+                pass
+        bad_low, err_low = core.coq_bools('c01low', interp.IMPORTS + ' Proofs.C01 Model.RunC01', low_terms, shard=5)
+        for k, log in err_low:
+            chk.corr_fail.append({'class': 'case-file-did-not-evaluate', 'shard': k, 'log': log[-800:]})
+        for b in bad_low[:5]:
+            chk.corr_fail.append({'class': 'compile-differs-from-the-parser-model', 'source': texts[core_idx[b]]})
+        st_codes, err_st = core.coq_codes('c01st', interp.IMPORTS + ' Proofs.C01 Model.RunC01', st_terms, shard=6)
+        for k, log in err_st:
+            chk.corr_fail.append({'class': 'case-file-did-not-evaluate', 'shard': k, 'log': log[-800:]})
+        for j, c in enumerate(st_codes):
+            if c in (0, 3) and len(chk.corr_fail) < 12:
+                chk.corr_fail.append({'class': 'structured-interpreter-differs-from-implementation' if c == 0 else 'structured-interpreter-out-of-fuel',
+                                      'source': texts[st_used[j]], 'impl': {k: impl[st_used[j]].get(k) for k in ('res', 'rt', 'log')}})
+        n_low, n_st, st_declined = len(low_terms), len(st_terms), sum(1 for c in st_codes if c == 2)
+        codes, errors = core.coq_codes('c01', interp.IMPORTS, terms, shard=16)
         corr_n = len(used)
         for k, log in errors:
             chk.corr_fail.append({'class': 'case-file-did-not-evaluate', 'shard': k, 'log': log[-800:]})
@@ -318,6 +418,7 @@ def run(tier):
                 'break/continue; initial globals from a 16-value pool of all nine types; non-trivial = distinct program texts on which implementation = reference',
         'exhaustive': tier == 'thorough', 'exhaustive_part': 'nesting shapes to depth 3' + (' (depth 3 sampled in quick)' if tier == 'quick' else ''),
         'distribution': dist, 'reference_skipped': skipped, 'correspondence_cases': corr_n, 'model_declined': declined,
+        'lowering_equalities_checked_in_coq': n_low, 'structured_interpreter_runs_in_coq': n_st, 'structured_interpreter_declined': st_declined,
         'samples': [{'source': texts[i], 'impl': {k: impl[i].get(k) for k in ('res', 'rt', 'log')}} for i in (3, len(progs) // 2, len(progs) - 40) if i < len(progs)],
     }
     return chk.finish(TRUSTED)
